@@ -8,6 +8,8 @@ Driver for C06. Lines (one output line per input line):
 * `dist denom=<d> fee=<n> featured=<0|1> dev=<a|->`
 * `ibc denom=<d> fee=<n> dev=<a|->`
 * `dao funds=<…> fee=<n> denom=<d>`
+* `mintfee kind=<0..8> price=<n> bps=<n> dev=<a>` — integration: one public mint on a real minter of that kind
+* `shufflefee kind=<0..5> fee=<n> pay=<n> minter=<a>` — integration: Shuffle paying `pay` on a factory whose shuffle fee is `fee`
 
 Output: `ok <msgs>` or `err`.
 -/
@@ -37,6 +39,19 @@ def c06Line (line : String) : String :=
       let fu ← pairListKv ws "funds"; let f ← natKv ws "fee"; let dn ← natKv ws "denom"
       match Sg1.transferFundsToLaunchpadDao (coinsOf fu) f dn with
       | .ok ms => pure s!"ok {renderMsgs ms}"
+      | .error _ => pure "err"
+    | some "mintfee" => do
+      -- one public mint on a real minter of kind k (created through its factory): who received how much of the network fee
+      let k ← natKv ws "kind"; let p ← natKv ws "price"; let b ← natKv ws "bps"; let d ← natKv ws "dev"
+      let ms := Sg1.mintFeeMsgs k p b d
+      if !Sg1.allNonzero ms then pure "err"
+      else pure s!"ok fee={mulFloor p (bps b)} dev={Sg1.sentTo d ms} liq={Sg1.sentTo LIQUIDITY_DAO ms} lp={Sg1.sentTo LAUNCHPAD_DAO ms} burned={Sg1.burnedBy ms} pool={Sg1.sentTo FAIRBURN_POOL ms}"
+    | some "shufflefee" => do
+      -- Shuffle on a vending-family minter: `checked_fair_burn(shuffle_fee, None)` on behalf of the minter contract
+      let f ← natKv ws "fee"; let pay ← natKv ws "pay"; let m ← natKv ws "minter"
+      match Sg1.checkedFairBurn (if pay = 0 then [] else [⟨NATIVE, pay⟩]) m f none with
+      | .ok ms => if !Sg1.allNonzero ms then pure "err" else
+          pure s!"ok burned={Sg1.burnedBy ms} pool={Sg1.sentTo FAIRBURN_POOL ms} dev=0 liq={Sg1.sentTo LIQUIDITY_DAO ms} lp={Sg1.sentTo LAUNCHPAD_DAO ms}"
       | .error _ => pure "err"
     | _ => none
   r.getD "bad-op"
